@@ -25,6 +25,10 @@ pub struct Case {
     /// a directory symlink inside the output directory pointing outside
     pub symlink_in_out: bool,
     pub seed: u64,
+    /// members written interleaved, two blocks each (more of them open at once than the extractor's
+    /// pool of 1000 open output files when there are more than 1000 names)
+    #[serde(default)]
+    pub interleaved: bool,
 }
 
 fn component(rng: &mut Rng, i: usize) -> String {
@@ -45,7 +49,7 @@ fn component(rng: &mut Rng, i: usize) -> String {
 fn gen_name(rng: &mut Rng) -> String {
     match rng.below(19) {
         16 => "link_out/existing".into(),
-        17 => "filelink".into(),
+        17 => if rng.chance(1, 2) { "filelink".into() } else { "danglelink".into() },
         18 => format!("{}/inner{}", "N".repeat(255), rng.below(9)),
         0 => "{SB}/canary/pwned-abs".into(),
         1 => "../canary/pwned-rel".into(),
@@ -95,7 +99,14 @@ pub fn cases(ctx: &Ctx) -> Vec<Case> {
                 names.insert(nm);
             }
         }
-        v.push(Case { names: names.into_iter().collect(), form: (i % 3) as u8, absolute_out: i % 2 == 0, out_style: ((i / 2) % 4) as u8, out_exists: i % 4 != 3, symlink_in_out: i % 5 == 0, seed: rng.next() });
+        v.push(Case { names: names.into_iter().collect(), form: (i % 3) as u8, absolute_out: i % 2 == 0, out_style: ((i / 2) % 4) as u8, out_exists: i % 4 != 3, symlink_in_out: i % 5 == 0, seed: rng.next(), interleaved: false });
+    }
+    // many members open at the same time: 1100 (more than the pool of output files) and 900 (fewer)
+    for (j, count) in [1100usize, 900].into_iter().enumerate() {
+        let names: Vec<String> = (0..count).map(|i| format!("many/d{}/m{i}.bin", i % 7)).collect();
+        for form in [0u8, 2] {
+            v.push(Case { names: names.clone(), form, absolute_out: j == 0, out_style: 0, out_exists: true, symlink_in_out: false, seed: rng.next(), interleaved: true });
+        }
     }
     v
 }
@@ -261,10 +272,31 @@ pub fn run_case(ctx: &mut Ctx, c: &Case) {
     cfg.set_layers(Layers::EMPTY);
     let mut w = ArchiveWriter::from_config(Vec::new(), cfg).unwrap();
     let mut contents: BTreeMap<String, Vec<u8>> = BTreeMap::new();
-    for n in &names {
-        let data = content_for(n, c.seed);
-        if w.add_file(n, data.len() as u64, &data[..]).is_ok() {
-            contents.insert(n.clone(), data);
+    if c.interleaved {
+        ctx.count(if names.len() > 1000 { "musthit:more_members_open_at_once_than_the_output_pool" } else { "interleaved_members" });
+        let mut ids = Vec::new();
+        for n in &names {
+            if let Ok(id) = w.start_file(n) {
+                ids.push((id, n.clone(), content_for(n, c.seed)));
+            }
+        }
+        for half in 0..2 {
+            for (id, _, data) in &ids {
+                let mid = data.len() / 2;
+                let part = if half == 0 { &data[..mid] } else { &data[mid..] };
+                w.append_file_content(*id, part.len() as u64, part).unwrap();
+            }
+        }
+        for (id, n, data) in ids {
+            w.end_file(id).unwrap();
+            contents.insert(n, data);
+        }
+    } else {
+        for n in &names {
+            let data = content_for(n, c.seed);
+            if w.add_file(n, data.len() as u64, &data[..]).is_ok() {
+                contents.insert(n.clone(), data);
+            }
         }
     }
     w.finalize().unwrap();
@@ -277,6 +309,8 @@ pub fn run_case(ctx: &mut Ctx, c: &Case) {
         let _ = std::os::unix::fs::symlink("../canary", out.join("link_out"));
         // and a symlink to an existing file outside
         let _ = std::os::unix::fs::symlink("../canary/existing", out.join("filelink"));
+        // and a dangling one (its target, outside, does not exist yet)
+        let _ = std::os::unix::fs::symlink("../canary/not-there-yet", out.join("danglelink"));
     }
     if !c.absolute_out && c.out_style % 4 == 3 {
         let _ = std::fs::create_dir_all(sb.join("x"));
@@ -286,6 +320,9 @@ pub fn run_case(ctx: &mut Ctx, c: &Case) {
     for n in contents.keys() {
         if n.starts_with('/') {
             ctx.count("musthit:absolute_name");
+        }
+        if c.symlink_in_out && n == "danglelink" {
+            ctx.count("musthit:member_at_a_dangling_symlink");
         }
         if c.symlink_in_out && (n == "link_out/existing" || n == "filelink") {
             ctx.count("musthit:member_reaching_an_existing_outside_file_through_a_symlink");
@@ -384,7 +421,7 @@ pub fn run_case(ctx: &mut Ctx, c: &Case) {
     let conflict = |v: &Vec<String>| all_norm.iter().filter(|o| ***o == *v).count() > 1 || all_norm.iter().any(|o| o.len() != v.len() && (o.starts_with(v) || v.starts_with(o)));
     let any_conflict = all_norm.iter().any(|v| conflict(v));
     // a member whose path goes through the pre-existing symlink is refused by design (containment)
-    let through_symlink = |v: &Vec<String>| c.symlink_in_out && v.first().is_some_and(|x| x == "link_out" || x == "filelink");
+    let through_symlink = |v: &Vec<String>| c.symlink_in_out && v.first().is_some_and(|x| x == "link_out" || x == "filelink" || x == "danglelink");
     let symlink_involved = all_norm.iter().any(|v| through_symlink(v));
     if os_limits_ok && !any_conflict && !symlink_involved {
         ctx.count("archives_subject_to_must_extract");
